@@ -21,13 +21,13 @@ from vlib import core, fraggen, fragrun
 
 MANIFEST_ENTRY = {
     "level_claimed": {"category": "proof",
-        "text": "Stage 1 (straight-line programs over Nat/Int/Str/Bool: literals, names, + - * // %, comparisons, short-circuit and/or "
-                "with patched jumps, the two-branch if-expression (POP_JUMP_FORWARD_IF_FALSE / JUMP_FORWARD patching), not, unary minus, definitions, print!, bare expression chunks; target 3.11): Lean compiler-correctness "
+        "text": "Stages 1-2 (programs over Nat/Int/Str/Bool: literals, names, + - * // %, comparisons, short-circuit and/or "
+                "with patched jumps, the two-branch if-expression (POP_JUMP_FORWARD_IF_FALSE / JUMP_FORWARD patching), not, unary minus, definitions, print!, bare expression chunks, counting loops `for! lo..<hi, i => chunks` with GET_ITER/FOR_ITER/JUMP_BACKWARD patching, proved by induction on the iteration count; target 3.11): Lean compiler-correctness "
                 "theorem for a transcription of the code generator against a model of the 3.11 evaluation loop and the Python-semantics "
                 "reading, for all programs of the fragment; the transcription is tied to codegen.rs instruction-for-instruction on every run. "
-                "The rest of the checked fragment (loops, functions, lambdas, lists, floats, patterns, other targets) is exercised only "
+                "The rest of the checked fragment (while! loops, nested loops, functions, lambdas, lists, floats, patterns, other targets) is exercised only "
                 "differentially against an independent Python translation."},
-    "level_note": "proved: C01_compile_simulates (bytecode = wrapper-aware source semantics, unconditional), C01_clean_is_python, C01_stage1, "
+    "level_note": "proved for every program of the modelled fragment (any size, any loop bounds): C01_compile_simulates (bytecode = wrapper-aware source semantics, unconditional), C01_clean_is_python, C01_stage1, "
                   "C01_vmRun, C01_fuel_mono, C01_jumpArgs_small, C01_witness_unclean. Trusted/modelled rather than verified: the model of the "
                   "CPython 3.11 loop and of the runtime wrapper classes for these instructions (validated against the real interpreter on every "
                   "case), the HIR projection and the bytecode decoder in harness/src/bin/c01.rs, lowering/desugaring (the HIR is taken from "
